@@ -10,90 +10,9 @@ pub type TokenId = u32;
 //@@ struct toktrie/src/svob.rs SimpleVob
 //@@ include common/svob_core.vrs
 
-//@@ const toktrie/src/toktree.rs NO_TOKEN
-//@@ const toktrie/src/toktree.rs PARENT_BITS
-//@@ constx toktrie/src/toktree.rs PARENT_MASK
-//@ spec
-    ensures PARENT_MASK == 0x3ffu32,
-//@ body_start
-    assert((1u32 << 10u32) == 0x400u32) by (bit_vector);
-//@ end
-//@@ struct toktrie/src/toktree.rs TrieNode derive=Clone,Copy
+//@@ include common/trienode.vrs
 //@@ struct toktrie/src/toktree.rs TokRxInfo derive=Clone,Copy
 //@@ struct toktrie/src/toktree.rs TokTrie fields=info,nodes
-
-// ---------------------------------------------------------------- node accessors
-pub open spec fn nbyte(n: TrieNode) -> u8 { (n.bits & 0xff) as u8 }
-pub open spec fn nsize(n: TrieNode) -> nat { (n.bits2 >> 10u32) as nat }
-pub open spec fn nparents(n: TrieNode) -> nat { ((n.bits2 & 0x3ffu32) + 1) as nat }
-pub open spec fn ntok(n: TrieNode) -> u32 { n.bits >> 8u32 }
-
-impl TrieNode {
-//@@ fn toktrie/src/toktree.rs TrieNode::new
-//@ ret r
-//@ spec
-    requires 0 < num_parents <= 1024, token_id <= 0xff_ffff,
-    ensures nbyte(r) == byte, ntok(r) == token_id, nparents(r) == num_parents, nsize(r) == 0,
-//@ body_start
-    proof {
-        let np1: u32 = (num_parents - 1) as u32;
-        assert(PARENT_BITS == 10u32);
-        assert((1u32 << 10u32) == 1024u32) by (bit_vector);
-        assert((1i32 << 10u32) == 1024i32) by (bit_vector);
-        assert((((token_id << 8u32) | (byte as u32)) & 0xffu32) as u8 == byte) by (bit_vector) requires token_id <= 0xff_ffffu32;
-        assert(((token_id << 8u32) | (byte as u32)) >> 8u32 == token_id) by (bit_vector) requires token_id <= 0xff_ffffu32;
-        assert((np1 & 0x3ffu32) == np1 && (np1 >> 10u32) == 0u32) by (bit_vector) requires np1 < 1024u32;
-    }
-//@ end
-
-//@@ fn toktrie/src/toktree.rs TrieNode::set_subtree_size
-//@ spec
-    requires size < 0x40_0000,
-    ensures nsize(*final(self)) == size, nparents(*final(self)) == nparents(*old(self)),
-        nbyte(*final(self)) == nbyte(*old(self)), ntok(*final(self)) == ntok(*old(self)),
-//@ body_start
-    proof {
-        let b2 = self.bits2;
-        let sz: u32 = size as u32;
-        assert(PARENT_BITS == 10u32);
-        assert((1u32 << 22u32) == 0x40_0000u32) by (bit_vector);
-        assert((1usize << 22u32) == 0x40_0000usize) by (bit_vector);
-        assert(32 - PARENT_BITS == 22u32);
-        assert((((b2 & 0x3ffu32) | (sz << 10u32)) >> 10u32) == sz && (((b2 & 0x3ffu32) | (sz << 10u32)) & 0x3ffu32) == (b2 & 0x3ffu32)) by (bit_vector) requires sz < 0x40_0000u32;
-    }
-//@ end
-
-//@@ fn toktrie/src/toktree.rs TrieNode::byte
-//@ ret r
-//@ spec
-    ensures r == nbyte(*self),
-//@ end
-
-//@@ fn toktrie/src/toktree.rs TrieNode::subtree_size
-//@ ret r
-//@ spec
-    ensures r == nsize(*self),
-//@ body_start
-    proof { assert(PARENT_BITS == 10u32); }
-//@ end
-
-//@@ fn toktrie/src/toktree.rs TrieNode::num_parents
-//@ ret r
-//@ spec
-    ensures r == nparents(*self),
-//@ body_start
-    proof {
-        let b2 = self.bits2;
-        assert((b2 & 0x3ffu32) < 0x400u32) by (bit_vector);
-    }
-//@ end
-
-//@@ fn toktrie/src/toktree.rs TrieNode::token_id
-//@ ret r
-//@ spec
-    ensures r == (if ntok(*self) == NO_TOKEN { None::<u32> } else { Some(ntok(*self)) }),
-//@ end
-}
 
 // ---------------------------------------------------------------- TrieWf
 pub open spec fn dh(d: Seq<nat>, e: int) -> nat { if e < d.len() { d[e] } else { 1 } }
